@@ -24,7 +24,8 @@ from pbt.props.c06 import dataset_graphs
 
 RULE = ("graph or dataset (0-4 graphs incl. blank-node-named and empty ones, default_union on/off, Memory/SimpleMemory for plain graphs) x a "
         "sequence of 3-10 read-only calls drawn from: serialize in 14 formats, SELECT/ASK/CONSTRUCT/DESCRIBE queries (GRAPH <absent>, GRAPH ?g, "
-        "paths, OPTIONAL, aggregates), path evaluation, isomorphic/to_isomorphic/to_canonical_graph/graph_diff, len/iter/in/slicing, subjects("
+        "paths, OPTIONAL, aggregates), 8 query objects prepared once per case and evaluated repeatedly (multi-key ORDER BY, compared as "
+        "sequences), path evaluation, isomorphic/to_isomorphic/to_canonical_graph/graph_diff, len/iter/in/slicing, subjects("
         "unique), value, items, transitive_objects, cbd, connected, all_nodes, skolemize, namespaces, graphs(), quads(), membership with a Graph "
         "of the same store as context. Non-trivial = >=2 graphs incl. a blank-node-named or empty one and the sequence has a serialise and a "
         "query; distinct by SHA-1 of the case JSON.")
@@ -88,6 +89,9 @@ def norm_result(r):
             return ("ask", r.askAnswer)
         if r.type in ("CONSTRUCT", "DESCRIBE"):
             return ("graph", frozenset(tkey(t) for t in r.graph))
+        if getattr(r, "_verif_ordered", False):
+            # ORDER BY over keys that leave only identical rows tied: the sequence is part of the answer
+            return ("rows-in-order", tuple(str(v) for v in (r.vars or [])), tuple(tuple(sorted((str(k), key(v)) for k, v in b.items())) for b in r.bindings))
         return ("rows", tuple(str(v) for v in (r.vars or [])), tuple(sorted((tuple(sorted((str(k), key(v)) for k, v in b.items())) for b in r.bindings), key=repr)))
     if isinstance(r, Graph):
         return ("graph", frozenset(tkey(t) for t in r))
@@ -126,7 +130,29 @@ def make_paths():
     return {"seq": P1 / q, "seq3": P1 / q / P1, "alt": P1 | q, "inv": ~(P1 / q), "star-seq": MulPath(P1 / q, "*"), "neg": -P1}
 
 
-def make_read(op, target, is_ds, paths=None):
+# query objects held for the whole case (prepareQuery once, evaluated again and again): evaluating them must not change them.
+# The ORDER BY keys cover every projected variable, so the sequence of rows is determined.
+PREPARED = [
+    "SELECT ?s ?p ?o WHERE { ?s ?p ?o } ORDER BY ?p DESC(?o) ?s",
+    "SELECT ?p (COUNT(*) AS ?n) WHERE { ?s ?p ?o } GROUP BY ?p ORDER BY DESC(?n) ?p",
+    "SELECT ?s ?p ?o WHERE { ?s ?p ?o } ORDER BY ?p ?o ?s LIMIT 3",
+    "SELECT ?g ?s ?p ?o WHERE { GRAPH ?g { ?s ?p ?o } } ORDER BY ?p ?g DESC(?s) ?o",
+    "SELECT ?s ?n WHERE { ?s <http://ex.org/p> ?x { SELECT ?s (COUNT(?o) AS ?n) WHERE { ?s ?p ?o } GROUP BY ?s ORDER BY DESC(?n) ?s LIMIT 2 } } ORDER BY ?n ?s",
+    "SELECT DISTINCT ?s ?o WHERE { ?s <http://ex.org/p>+ ?o } ORDER BY DESC(?o) ?s",
+    "CONSTRUCT { ?o <urn:inv> ?s } WHERE { ?s ?p ?o FILTER(isIRI(?o)) }",
+    "ASK { ?s <http://ex.org/ns#q> ?o }",
+]
+
+
+class make_prepared(dict):
+    """index -> query object, prepared when first asked for and then kept for the rest of the case"""
+    def __missing__(self, i):
+        from rdflib.plugins.sparql import prepareQuery
+        self[i] = prepareQuery(PREPARED[i])
+        return self[i]
+
+
+def make_read(op, target, is_ds, paths=None, prepared=None):
     """returns (label, callable) for a read-only call"""
     name = op[0]
     g0 = target.default_graph if is_ds else target
@@ -142,6 +168,14 @@ def make_read(op, target, is_ds, paths=None):
             list(r)  # force evaluation
             return r
         return "query:%d" % (op[1] % len(QUERIES)), run_q, None
+    if name == "prepared":
+        i = op[1] % len(PREPARED)
+        def run_p():
+            r = target.query(prepared[i])
+            list(r)
+            r._verif_ordered = "ORDER BY" in PREPARED[i]
+            return r
+        return "prepared:%d" % i, run_p, None
     reads = {
         "len": lambda: len(target),
         "iter": lambda: frozenset(map(repr, target)),
@@ -200,9 +234,10 @@ def run(case):
                     target.add(tuple(T(x) for x in t))
         before = snapshot(target)
         paths = make_paths()
+        prepared = make_prepared()
         labels = []
         for step, op in enumerate(case["ops"]):
-            label, fn, fmt = make_read(op, target, is_ds, paths)
+            label, fn, fmt = make_read(op, target, is_ds, paths, prepared)
             labels.append(label)
             r1 = sut(lambda: norm_result(fn()))
             after1 = snapshot(target)
@@ -235,7 +270,8 @@ def run(case):
 def cases(draw, tier):
     kind = draw(st.sampled_from(["graph", "dataset", "dataset", "dataset-union"]))
     op = st.one_of(st.tuples(st.just("serialize"), st.integers(0, 7)), st.tuples(st.just("query"), st.integers(0, len(QUERIES) - 1)),
-                   st.tuples(st.just("api"), st.integers(0, 30)), st.tuples(st.just("api"), st.integers(0, 30))).map(list)
+                   st.tuples(st.just("api"), st.integers(0, 30)), st.tuples(st.just("api"), st.integers(0, 30)),
+                   st.tuples(st.just("prepared"), st.integers(0, len(PREPARED) - 1))).map(list)
     return {"kind": kind, "store": draw(st.sampled_from(["memory", "simple"])), "graphs": dataset_graphs(draw),
             "ops": draw(sized_lists(op, 3, 10))}
 
